@@ -159,6 +159,11 @@ static char cstr_back(const struct cstr *s)               /* std::string::back()
   __CPROVER_assert(s->n >= 1, "C07: back() on an empty std::string is undefined");
   return s->n >= 1 && s->n <= 15 ? s->d[s->n - 1] : 0;
 }
+static char cstr_front(const struct cstr *s)              /* std::string::front(): undefined on an empty string */
+{
+  __CPROVER_assert(s->n >= 1, "C07: front() on an empty std::string is undefined");
+  return s->n >= 1 ? s->d[0] : 0;
+}
 static struct cstr cstr_rtrim(struct cstr s)            /* stringutil::rtrim: strip trailing spaces */
 {
   while (s.n > 0 && s.d[s.n - 1] == ' ') s.n--;
